@@ -42,11 +42,11 @@ Definition spec_decide (f : field) (q : request) : outcome :=
   match first_text slice q tags with
   | Some l =>
       let empty := if slice then false else (match l with [[]] => true | _ => false end) in
-      if empty && negb (is_empty (f_default f)) then OTexts [f_default f] true else OTexts l false
+      if empty && negb (is_empty (f_default f)) then OTexts (default_texts slice (f_default f)) true else OTexts l false
   | None =>
       if json_tag_has q tags then OKeep                    (* the body has it: the pre-bound value stays *)
       else if required_somewhere tags then OErrRequired    (* nowhere, and some tag demands it *)
-      else if negb (is_empty (f_default f)) && has_text_or_json_tag tags then OTexts [f_default f] true
+      else if negb (is_empty (f_default f)) && has_text_or_json_tag tags then OTexts (default_texts slice (f_default f)) true
       else OKeep
   end.
 
